@@ -140,6 +140,24 @@ func plansFor(prop string, th bool) []plan {
 			{name: "efos-autocompact", cfg: auto, mon: rd, alpha: a[:10], depth: d(3, 4), need: [][]string{{"efos"}}},
 			{name: "efos-held-flushes", cfg: deepQ, mon: rd, alpha: []hx.Op{hold, setA, efos, ingA, delA, release, waitefos, setB, ingB, closeefos}, depth: d(4, 5), need: [][]string{{"efos"}, {"hold"}}},
 		}
+	case "C08-delonly", "C14-delonly":
+		// Wide tombstones of BOTH kinds (RangeKeyDelete, DeleteRange) over tables that hold points and
+		// range keys, with a snapshot that keeps the older tombstone's deletion hint pending: the
+		// delete-only compaction machinery may drop or excise a table only if every key kind in it is
+		// older than the tombstone of ITS kind. Pebble's default thresholds + table statistics.
+		rkdAC := hx.Op{K: "rkdel", Key: "a", End: "c"}
+		drAZ := hx.Op{K: "delrange", Key: "a", End: "z"}
+		wi := hx.Op{K: "waitidle"}
+		// compactions restricted to [a,c) and [c,z): the table with points and range keys and the
+		// point-only table stay separate tables in L6
+		cAC, cCZ := hx.Op{K: "compact", Key: "a", End: "c"}, hx.Op{K: "compact", Key: "c", End: "z"}
+		pre := []hx.Op{rksAC, flush, cAC, snap, rkdAC, flush, wi, rksAC, setB, flush, cAC, wi, setC, flush, cCZ, wi}
+		return []plan{
+			{name: "wide-tombstones-both-kinds", cfg: autoDef, mon: rd, pre: pre,
+				alpha: []hx.Op{drAZ, flush, closesnap, rkdAC, snap, setB, compact}, depth: d(3, 4), need: [][]string{{"delrange", "rkdel"}, {"flush"}}},
+			{name: "wide-tombstones-both-kinds-no-snapshot", cfg: autoDef, mon: rd, pre: []hx.Op{rksAC, setB, flush, cAC, wi, setC, flush, cCZ, wi},
+				alpha: []hx.Op{drAZ, flush, rkdAC, snap, closesnap, rksAC, setB}, depth: d(3, 4), need: [][]string{{"delrange", "rkdel"}, {"flush"}}},
+		}
 	case "C14":
 		a := []hx.Op{setA, setB, delA, mergeB, drAC, flush, compact, compactAB, snap, iter, efos, ratchet, ingA}
 		ps := []plan{
